@@ -40,9 +40,12 @@ type forExpander struct {
 
 	// values of symbols resolved for the FOR counts seen so far
 	resolved map[string][]token
-	// symbols through which the count of a nested block could not be
-	// evaluated, with the undefined name that was in the way ("" if none)
-	failingCounts map[string]string
+	// symbols whose values could not be resolved although every name they
+	// lead to is defined: for good, since values never change
+	failedSymbols map[string]error
+	// what is in the way of resolving a symbol, as far as it has been looked
+	// at: "" nothing, "!" a cycle, else an undefined name its value leads to
+	symbolBlocker map[string]string
 
 	// output fields
 	tokens chan token
@@ -54,7 +57,8 @@ func newForExpander(lex tokenReader, symbols map[string][]token) *forExpander {
 	if symbols == nil {
 		symbols = make(map[string][]token)
 	}
-	f := &forExpander{lex: lex, symbols: symbols, resolved: make(map[string][]token)}
+	f := &forExpander{lex: lex, symbols: symbols, resolved: make(map[string][]token),
+		failedSymbols: make(map[string]error), symbolBlocker: make(map[string]string)}
 	f.next()
 	f.tokens = make(chan token)
 	go f.run()
@@ -308,7 +312,7 @@ func forFor(f *forExpander) forStateFn {
 	}
 	f.exprBuf = expr
 
-	val, err := expandAndEvaluate(f.exprBuf, f.symbols, f.resolved)
+	val, err := expandAndEvaluate(f.exprBuf, f.symbols, f.resolved, nil)
 	if err != nil {
 		f.tokens <- token{tokError, fmt.Sprintf("%s", err)}
 		return nil
@@ -531,8 +535,7 @@ func (f *forExpander) recordBodyEqus() {
 		if f.forCountLabel != "" {
 			subst[f.forCountLabel] = fmt.Sprintf("%d", i)
 		}
-		f.recordEqus(f.forContent, subst, 1)
-		if !hasNestedEqu {
+		if !f.recordEqus(f.forContent, subst, 1) || !hasNestedEqu {
 			// what the first copy defines, the other copies only repeat
 			break
 		}
@@ -541,7 +544,10 @@ func (f *forExpander) recordBodyEqus() {
 
 // recordEqus walks the lines of a block body, depth blocks deep, in which the
 // count variables in subst have the given values
-func (f *forExpander) recordEqus(body []token, subst map[string]string, depth int) {
+//
+// It returns false when it meets an END line: nothing after that line belongs
+// to the program.
+func (f *forExpander) recordEqus(body []token, subst map[string]string, depth int) bool {
 	substituted := func(toks []token) []token {
 		out := make([]token, 0, len(toks))
 		for _, tok := range toks {
@@ -568,6 +574,10 @@ func (f *forExpander) recordEqus(body []token, subst map[string]string, depth in
 		line := body[start:end]
 		start = end + 1
 
+		if len(line) == 0 || line[0].typ != tokText {
+			// the expander only looks at lines that begin with a word
+			continue
+		}
 		for len(line) > 0 {
 			if line[0].typ == tokColon {
 				line = line[1:]
@@ -606,7 +616,11 @@ func (f *forExpander) recordEqus(body []token, subst map[string]string, depth in
 				for lineEnd < len(body) && body[lineEnd].typ != tokNewline {
 					lineEnd++
 				}
-				for _, tok := range body[pos:lineEnd] {
+				for k, tok := range body[pos:lineEnd] {
+					if k == 0 && tok.typ != tokText {
+						// the expander only looks at lines that begin with a word
+						break
+					}
 					if tok.typ == tokColon || (tok.typ == tokText && !tok.IsPseudoOp() && !tok.IsOp()) {
 						continue
 					}
@@ -628,7 +642,7 @@ func (f *forExpander) recordEqus(body []token, subst map[string]string, depth in
 			}
 			if innerEnd < 0 {
 				// no ROF: the expansion will report it
-				return
+				return true
 			}
 			inner := body[innerStart:innerEnd]
 
@@ -644,15 +658,13 @@ func (f *forExpander) recordEqus(body []token, subst map[string]string, depth in
 				continue
 			}
 			countExpr := substituted(line[1:])
-			if f.countIsKnownToFail(countExpr) {
+			if f.countIsBlocked(countExpr) {
+				// an undefined name or a cycle is in the way; the pass that
+				// expands the block will tell
 				continue
 			}
-			count, err := expandAndEvaluate(countExpr, f.symbols, f.resolved)
+			count, err := expandAndEvaluate(countExpr, f.symbols, f.resolved, f.failedSymbols)
 			if err != nil {
-				// not known yet, or never; the pass that expands the block
-				// will tell. Remember it, so that many blocks with such a
-				// count do not each walk through the same symbols again.
-				f.rememberFailingCount(countExpr, err)
 				continue
 			}
 			counter := ""
@@ -664,7 +676,9 @@ func (f *forExpander) recordEqus(body []token, subst map[string]string, depth in
 				if counter != "" {
 					subst[counter] = fmt.Sprintf("%d", i)
 				}
-				f.recordEqus(inner, subst, depth+1)
+				if !f.recordEqus(inner, subst, depth+1) {
+					return false
+				}
 			}
 			if counter != "" {
 				if hadSaved {
@@ -673,70 +687,66 @@ func (f *forExpander) recordEqus(body []token, subst map[string]string, depth in
 					delete(subst, counter)
 				}
 			}
+		case "end":
+			return false
 		}
 	}
+	return true
 }
 
-// countIsKnownToFail reports whether expr names a symbol through which an
-// earlier count could not be evaluated, and nothing has changed about that
-func (f *forExpander) countIsKnownToFail(expr []token) bool {
-	for _, tok := range expr {
-		if tok.typ != tokText {
-			continue
-		}
-		missing, ok := f.failingCounts[tok.val]
-		if !ok {
-			continue
-		}
-		if missing == "" {
-			// a cycle, a division by zero, a value that is too long: values
-			// never change, so it fails for good
-			return true
-		}
-		if _, defined := f.symbols[missing]; !defined {
-			return true
-		}
-		delete(f.failingCounts, tok.val)
-	}
-	return false
-}
-
-// rememberFailingCount records, for the names in expr, the undefined name
-// their values lead to ("" if there is none and the count fails for another
-// reason)
-func (f *forExpander) rememberFailingCount(expr []token, err error) {
-	if f.failingCounts == nil {
-		f.failingCounts = make(map[string]string)
-	}
-	seen := make(map[string]bool)
-	var missing func(toks []token) string
-	missing = func(toks []token) string {
-		for _, tok := range toks {
-			if tok.typ != tokText || seen[tok.val] {
-				continue
-			}
-			seen[tok.val] = true
-			value, ok := f.symbols[tok.val]
-			if !ok {
-				return tok.val
-			}
-			if name := missing(value); name != "" {
-				return name
-			}
-		}
-		return ""
-	}
+// countIsBlocked reports whether expr names something that is not defined,
+// or a symbol whose value leads to an undefined name or into a cycle
+func (f *forExpander) countIsBlocked(expr []token) bool {
 	for _, tok := range expr {
 		if tok.typ != tokText {
 			continue
 		}
 		if _, defined := f.symbols[tok.val]; !defined {
-			// an undefined name in the count itself is looked up in no time
+			return true
+		}
+		if f.blockerOf(tok.val, make(map[string]bool)) != "" {
+			return true
+		}
+	}
+	return false
+}
+
+// blockerOf returns what is in the way of resolving the symbol name: "" if
+// nothing, "!" if its value leads into a cycle, else an undefined name its
+// value leads to. Every symbol is looked at once: a cycle, or the absence of
+// anything in the way, is final, and an undefined name is in the way until it
+// is defined.
+func (f *forExpander) blockerOf(name string, onPath map[string]bool) string {
+	if blocker, known := f.symbolBlocker[name]; known {
+		if blocker == "" || blocker == "!" {
+			return blocker
+		}
+		if _, defined := f.symbols[blocker]; !defined {
+			return blocker
+		}
+		delete(f.symbolBlocker, name)
+	}
+	if onPath[name] {
+		return "!"
+	}
+	onPath[name] = true
+	blocker := ""
+	for _, tok := range f.symbols[name] {
+		if tok.typ != tokText {
 			continue
 		}
-		seen = make(map[string]bool)
-		f.failingCounts[tok.val] = missing([]token{tok})
+		if _, defined := f.symbols[tok.val]; !defined {
+			blocker = tok.val
+			break
+		}
+		blocker = f.blockerOf(tok.val, onPath)
+		if blocker != "" {
+			break
+		}
 	}
+	delete(onPath, name)
+	f.symbolBlocker[name] = blocker
+	return blocker
 }
 
 func forEmitConsumeStream(f *forExpander) forStateFn {
